@@ -345,6 +345,7 @@ fn choose(names: &[String], k: usize) -> Vec<String> {
 fn main() {
     let mut run = Run::from_args("C33", "model_checking");
     let (bin, build_s) = build_cli();
+    let t_explore = std::time::Instant::now();
     let tmp = std::env::temp_dir().join(format!("e7-c33-{}", std::process::id()));
     let _ = std::fs::remove_dir_all(&tmp);
     std::fs::create_dir_all(&tmp).unwrap();
@@ -524,6 +525,7 @@ fn main() {
         "generate_then_check_fails_without_any_edit": gen_then_check_fails,
         "oracle": "`--check` exits 0 ⇔ really generating into a copy of the same directory changes no byte and creates no file; if every file such a generation would rewrite differs only by CR before LF (and is text) the message must mention line endings, if none does it must not; names, bytes and mtimes of the checked directory (recursively, directories included) are identical before and after `--check`",
         "cli_build_s_not_part_of_the_budget": (build_s * 10.0).round() / 10.0,
+        "exploration_s_after_the_cli_build": (t_explore.elapsed().as_secs_f64() * 10.0).round() / 10.0,
         "hash_seed": "every CLI process runs with the getrandom shim and VERIF_HASH_SEED=0, so MoonBit's seed-dependent output order (C15) cannot blur this check",
         "samples": samples.items,
     });
